@@ -24,4 +24,21 @@ def allTriples : List (Int × Int × Int) :=
 
 def zeros (a b c : Int) : Nat := [a, b, c].count 0
 
+/-! `slice_faces_plane`: here the sign is **+1 on the negative side** of the plane, -1 on the positive side
+    (the side that is kept), 0 within `tol.merge` of it. -/
+def ssum (a b c : Int) : Int := a + b + c
+def asum (a b c : Int) : Int := a.natAbs + b.natAbs + c.natAbs
+/-- `onedge = (signs_asum >= 2) & (abs(signs_sum) <= 1)` -/
+def onEdge (a b c : Int) : Bool := decide (asum a b c ≥ 2) && decide ((ssum a b c).natAbs ≤ 1)
+/-- `inside = signs_sum == -signs_asum` (an all-zero row is decided by the face normal afterwards) -/
+def inside (a b c : Int) : Bool := ssum a b c == - asum a b c
+def cutQuad (a b c : Int) : Bool := onEdge a b c && decide (ssum a b c < 0)
+def cutTri (a b c : Int) : Bool := onEdge a b c && decide (ssum a b c ≥ 0)
+/-- number of faces the slice keeps for one triangle that is not entirely in the plane -/
+def keptFaces (a b c : Int) : Nat :=
+  if inside a b c then 1 else if cutQuad a b c then 2 else if cutTri a b c then 1 else 0
+/-- number of section segments `mesh_plane` emits for one triangle -/
+def segments (a b c : Int) : Nat :=
+  if isBasic a b c || isOneVertex a b c || isOneEdge a b c then 1 else 0
+
 end TV.Slice
